@@ -73,9 +73,12 @@ _LOST = set()
 
 def _floor(ctx, rule, label, n, at_least):
     """fail closed on a vacuous pass - unless the rule already reported a lost construct as a finding"""
-    if rule in _LOST:
+    if rule in _LOST or n >= at_least:
         return
-    ctx.require_count(label, n, at_least)
+    # the anchored functions exist (repo.func raised otherwise) but the rule recognises fewer sites than were confirmed by
+    # hand: the protected constructs changed shape - a finding, not an analysis error
+    ctx.fail(rule, ctx.site(SAMP, "<module>"), f"{label}: the constructs protected by {rule} are no longer found in a recognisable form",
+             f"{n} site(s) recognised, at least {at_least} were confirmed by hand")
 
 
 def _lost(ctx, rule, site, construct, what):
@@ -698,7 +701,8 @@ def w1_probabilities(ctx):
         src_ok = norm_ok = False
         for st in au.stmts(fn.body):
             if isinstance(st, ast.Assign) and any(isinstance(t, ast.Name) and t.id == w for t in st.targets):
-                calls = [x for x in au.walk(st.value) if isinstance(x, ast.Call) and au.call_tail(x) == measure]
+                rv = _res(b, st.value, at=st, keep=(w, mesh_p))   # `a = edge_length(mesh); w = a.as_array()` is the same provenance
+                calls = [x for x in au.walk(rv) if isinstance(x, ast.Call) and au.call_tail(x) == measure]
                 if calls and calls[0].args and isinstance(calls[0].args[0], ast.Name) and calls[0].args[0].id == mesh_p:
                     src_ok = True
                 # w = w / np.sum(w)
